@@ -10,5 +10,5 @@ case "$res" in
 import json
 p='/verif/seeded/$prop-$v/meta.json'; m=json.load(open(p)); m['origin']+=' (round 2: asked for interleaving/fault-point dependent or two-site/boundary changes)'; m['demonstration']['run']='go test -vet=off -count=1 -run Test ./$pkg'; json.dump(m,open(p,'w'),indent=1)
 PY
-  tools/seed_run.sh $prop-$v ;;
+  [ -n "${NORUN:-}" ] || tools/seed_run.sh $prop-$v ;;
 esac
